@@ -38,12 +38,26 @@ package kademlia
 //@ spec func above(s *pslice.PSlice, b int) int
 //@ axiom above-the-last-bin: forall s *pslice.PSlice :: above(s, len(s.peers)) == 0
 //@ axiom above-step: forall s *pslice.PSlice, b int, c int :: 0 <= b && c == b + 1 && c <= len(s.peers) ==> above(s, b) == above(s, c) + full(s, b)
-//@ # two lemmas about these counting functions (each by induction over the second argument; not
-//@ # machine-checked here): a prefix of a bin holds at most as many reachable peers as the bin,
-//@ # and a deeper suffix of the bins at most as many as a shallower one
+//@ # three facts about these counting functions used by the loop invariants (proved as lemmas
+//@ # further down): a prefix of a bin holds at most as many reachable peers as the bin, one fewer
+//@ # just before a reachable peer, and a deeper suffix of the bins at most as many as a shallower one
 //@ axiom rc-monotone: forall s *pslice.PSlice, b int, j int :: 0 <= b && b < len(s.peers) && 0 <= j && j <= len(s.peers[b]) ==> 0 <= rc(s, b, j) && rc(s, b, j) <= full(s, b)
 //@ axiom rc-before-a-reachable-peer: forall s *pslice.PSlice, b int, j int :: 0 <= b && b < len(s.peers) && 0 <= j && j < len(s.peers[b]) && !unreach(s.peers[b][j]) ==> rc(s, b, j) + 1 <= full(s, b)
 //@ axiom above-monotone: forall s *pslice.PSlice, b int, c int :: 0 <= b && b <= c && c <= len(s.peers) ==> above(s, b) >= above(s, c)
+
+//@ # ---- the three lemmas above, proved ---------------------------------------------------------------
+//@ # A lemma named like an axiom is the proof of that axiom (the statements must be identical): it may
+//@ # use the defining equations, the typing fact below and the lemmas before it, not the axiom itself.
+//@ # 'by induction on v up|down from e' proves base case and step with the other variables fixed.
+//@ # (a bin's length is not negative: a typing fact of Go; a lemma speaks about arbitrary values,
+//@ # which carry no typing facts of their own)
+//@ axiom bin-lengths-are-not-negative: forall s *pslice.PSlice, k int :: 0 <= k && k < len(s.peers) ==> len(s.peers[k]) >= 0
+//@ lemma C22 rc-is-not-negative by induction on j up from 0: forall s *pslice.PSlice, b int, j int :: 0 <= b && b < len(s.peers) && 0 <= j && j <= len(s.peers[b]) ==> 0 <= rc(s, b, j)
+//@ lemma C22 rc-of-a-prefix-is-at-most-the-bin by induction on j down from len(s.peers[b]): forall s *pslice.PSlice, b int, j int :: 0 <= b && b < len(s.peers) && 0 <= j && j <= len(s.peers[b]) ==> rc(s, b, j) <= full(s, b)
+//@ lemma C22 rc-monotone: forall s *pslice.PSlice, b int, j int :: 0 <= b && b < len(s.peers) && 0 <= j && j <= len(s.peers[b]) ==> 0 <= rc(s, b, j) && rc(s, b, j) <= full(s, b)
+//@ lemma C22 rc-successor: forall s *pslice.PSlice, b int, j int :: 0 <= b && b < len(s.peers) && 0 <= j && j < len(s.peers[b]) ==> rc(s, b, j + 1) == rc(s, b, j) + ite(unreach(s.peers[b][j]), 0, 1) && rc(s, b, j + 1) <= full(s, b)
+//@ lemma C22 rc-before-a-reachable-peer: forall s *pslice.PSlice, b int, j int :: 0 <= b && b < len(s.peers) && 0 <= j && j < len(s.peers[b]) && !unreach(s.peers[b][j]) ==> rc(s, b, j) + 1 <= full(s, b)
+//@ lemma C22 above-monotone by induction on b down from c: forall s *pslice.PSlice, b int, c int :: 0 <= b && b <= c && c <= len(s.peers) ==> above(s, b) >= above(s, c)
 
 //@ # neighbourhood depth.  The two passes over the bins (EachBinRev, EachBin) and the visitors are
 //@ # executed on their bodies: the loops below are those of the two iteration methods.
